@@ -292,10 +292,45 @@ fn gen_rules() -> BoxedStrategy<Value> {
     gen::case2(rules::rooted(cfg), gen::data_docs())
 }
 
+
+/// accumulated state: see common::sweep
+fn sweep_item(kind: u64, k: usize) -> (Value, Value) {
+    match kind % 4 {
+        0 => (json!({"-": [format!("{}", 1000 + k), 0]}), Value::Null),
+        1 => (json!({"+": [format!("{}px", 1000 + k)]}), Value::Null),
+        2 => (json!({"*": [format!(" {}.5 ", k), 2]}), Value::Null),
+        _ => (json!({"max": [format!("{}", k), {"var": "n"}, format!("0x{:x}", k)]}), json!({"n": k as f64 + 0.5})),
+    }
+}
+
+fn check_state_sweep(case: &Value, obs: &mut Obs) -> Result<(), String> {
+    let w = case["w"].as_u64().unwrap_or(1) as usize;
+    let kind = case["kind"].as_u64().unwrap_or(0);
+    sweep(w, &|k| sweep_item(kind, k), obs)?;
+    obs.nt(&format!("sweep kind {} W {}", kind, if w < 64 { "<64" } else if w < 128 { "64-127" } else { "128+" }));
+    Ok(())
+}
+
+fn fixed_state_sweeps() -> Vec<Value> {
+    sweep_cases(4, 160)
+}
+
 pub fn property() -> Property {
     Property {
         id: "C10",
         subs: vec![
+            Sub {
+                name: "state_sweep",
+                about: "accumulated state: for every W in 1..160 and each kind of keyed work of this operator family (Number-style and parseFloat-style conversion of distinct strings, fractional strings, mixed max), W hot items are evaluated twice, then a new item, the hot set again, another new item, and everything in reverse; every call against the reference model - a cache, pool or table with any capacity up to 160 is driven exactly over its boundary.",
+                nontrivial: "every case.",
+                strategy: None,
+                fixed: Some(fixed_state_sweeps),
+                fixed_exhaustive: false,
+                check: check_state_sweep,
+                quick: 0,
+                thorough: 0,
+                small_stack: false,
+            },
             Sub {
                 name: "boundaries",
                 about: "all one- and two-operand applications of + - * / % min max over 54 boundary numbers (0, -0, subnormals, 2^53, 2^62, 2^63, 2^64 and neighbours, 1e19, 1.5e300, f64::MAX, i64/u64 extremes) against the model: value, integer/float spelling class, error exactly when not finite.",
